@@ -4,6 +4,7 @@
 package dyn
 
 import (
+	"github.com/PapaCharlie/go-restli/v2/fnv1a"
 	"fmt"
 	"reflect"
 	"sort"
@@ -477,6 +478,29 @@ func Hash(a reflect.Value) uint32 {
 	h := m.Call(nil)[0]
 	mk := h.MethodByName("MapKey").Call(nil)[0]
 	return uint32(mk.Uint())
+}
+
+// HashObject returns the fnv1a.Hash object ComputeHash hands out (as the interface type of the generation in use).
+func HashObject(a reflect.Value) fnv1a.Hash {
+	return ptrTo(a).MethodByName("ComputeHash").Call(nil)[0].Interface().(fnv1a.Hash)
+}
+
+// CallBool calls the named method (receiver: pointer to a) with b as its only argument and returns its bool result.
+func CallBool(a reflect.Value, name string, b reflect.Value) bool {
+	m := ptrTo(a).MethodByName(name)
+	arg := b
+	if m.Type().In(0).Kind() == reflect.Ptr {
+		arg = ptrTo(b)
+	} else if b.Kind() == reflect.Ptr {
+		arg = b.Elem()
+	}
+	return m.Call([]reflect.Value{arg})[0].Bool()
+}
+
+// CallHash calls the named argument-less method returning a fnv1a.Hash and returns its 32-bit value.
+func CallHash(a reflect.Value, name string) uint32 {
+	h := ptrTo(a).MethodByName(name).Call(nil)[0]
+	return uint32(h.MethodByName("MapKey").Call(nil)[0].Uint())
 }
 
 // HasMethod reports whether values of the generated type (or pointers to it) have the method.
